@@ -123,6 +123,14 @@ func (s *objectStore) delete(o Object) {
 	}
 }
 
+// drop forgets all the objects of a kind
+func (s *objectStore) drop(of Object) {
+	s.Lock()
+	defer s.Unlock()
+
+	delete(s.m, stype(of))
+}
+
 func (s *objectStore) count(of Object) (n int) {
 	s.RLock()
 	defer s.RUnlock()
@@ -249,15 +257,22 @@ func (db *DB) startAsyncWritesRoutine(s *Schema) {
 	step := time.Millisecond * 100
 	if s.asyncWritesEnabled() && !s.AsyncWrites.routineStarted {
 		s.AsyncWrites.routineStarted = true
+		// settings the routine is started for. If the settings of the schema
+		// get replaced (by Create) the routine stops, another one being
+		// started for the new settings if needed
+		async := s.AsyncWrites
 		go func() {
 			for db.ctx.Err() == nil {
 				for slept := time.Duration(0); ; slept += step {
-					n := db.safeCountPendingAsyncW(s.object)
-					if n >= s.AsyncWrites.Threshold || slept >= s.AsyncWrites.Timeout {
+					n, current := db.safeCountPendingAsyncW(s, async)
+					if !current {
+						return
+					}
+					if n >= async.Threshold || slept >= async.Timeout {
 						// enter critical section
 						db.Lock()
 						// checking db.ctx not to race with db.Close function
-						if db.ctx.Err() == nil {
+						if db.ctx.Err() == nil && s.AsyncWrites == async {
 							if err := db.flushAllAndCommit(s.object); err != nil {
 								panic(err)
 							}
@@ -273,10 +288,12 @@ func (db *DB) startAsyncWritesRoutine(s *Schema) {
 	}
 }
 
-func (db *DB) safeCountPendingAsyncW(of Object) (n int) {
+// safeCountPendingAsyncW returns the number of pending writes and whether
+// async is still the asynchronous writes settings of the schema
+func (db *DB) safeCountPendingAsyncW(s *Schema, async *Async) (n int, current bool) {
 	db.RLock()
 	defer db.RUnlock()
-	return db.asyncw.count(of)
+	return db.asyncw.count(s.object), s.AsyncWrites == async
 }
 
 func (db *DB) schema(of Object) (s *Schema, err error) {
@@ -554,10 +571,31 @@ func (db *DB) Create(o Object, s Schema) (err error) {
 	case err == nil:
 		s.initialize(db, o)
 
+		// nothing must be done if the schemas are not compatible
+		if err = es.isCompatibleWith(&s); err != nil {
+			return
+		}
+
+		// pending writes are flushed before asynchronous writes settings
+		// get modified or disabled, otherwise they would be lost
+		if es.asyncWritesEnabled() {
+			if err = db.flushAll(o); err != nil {
+				return
+			}
+		}
+
+		wasCaching := es.mustCache()
+
 		// the schema is existing and we don't need to build a new one
 		// update existing schema with changes
 		if err = es.update(&s); err != nil {
 			return
+		}
+
+		// objects cached before caching got disabled may not be
+		// up to date anymore
+		if !wasCaching && es.mustCache() {
+			db.cache.drop(o)
 		}
 
 		return db.saveSchema(o, es, true)
